@@ -252,6 +252,19 @@ def run(chk):
     chk.rule("C08.reads", "terminal links stay a symmetric matching under connect/disconnect (table shared with C09)")
     sim = S.Sim(prog)
     check_all(chk, prog, sim)
+    # release profile (K6 = default features, --release): debug_assert!(..) and its argument are compiled out, so a write or a
+    # call moved inside one silently disappears; the same tables must hold there
+    import report as _report
+    _p6 = load_config("K6")
+    chk.configs.append("K6")
+    _sub6 = _report.Check("C08", chk.tier)
+    _s6 = S.Sim(_p6)
+    check_all(_sub6, _p6, _s6)
+    chk.evaluations += _sub6.evaluations
+    for _v in _sub6.violations:
+        if _v["rule"] == "floor":
+            continue
+        chk.violation(_v["rule"], _v["key"] + "@K6", "[release profile] " + _v["what"], **_v["detail"])
     # link structure relied upon (connect keeps the terminals a symmetric matching): the inductive step is C09's table, evaluated here too
     import rules.C09 as C09
     import report
